@@ -12,12 +12,26 @@ def ds(o):
     return cat(u16(o.f['key_tag']), u8(o.f['algorithm']), u8(o.f['digest_type']), o.f['digest'])
 
 
-# ---- RFC 1035 3.3.14 / 3.3: TXT RDATA = one or more <character-string>, each a length octet followed by that many
-#      octets; the composer emits a single character-string (so the text must not exceed 255 octets)
+# ---- RFC 1035 3.3.14 / 3.3: TXT RDATA = one or more <character-string>, each a length octet followed by at most 255
+#      octets; the text is laid out in consecutive character-strings of 255 octets, the last one shorter (one empty
+#      character-string for the empty text)
 @spec('DnsRecordTxt')
 def txt(o):
+    from pyvc import engine as E
+    P = E.cur()
     s = seq(o.f['value'])
-    return cat(u8(s.n), s)
+    parts = []
+    start = 0
+    for _ in range(4):
+        if P.branch(s.n - start <= 255):
+            rest = V.slice_seq(s, start, None)
+            parts += [u8(rest.n), rest]
+            return cat(*parts)
+        parts += [u8(255), V.slice_seq(s, start, start + 255)]
+        start += 255
+        if P.branch(s.n == start):
+            return cat(*parts)
+    raise NoSpec('text longer than 1020 octets')
 
 
 def toascii(label):
